@@ -410,6 +410,16 @@ func c19Run(c c19Case, st *fw.Stats) []fw.Viol {
 						add("helper:redirect-location", fmt.Sprintf("Redirect(%q, %d): no Location header", target, status))
 					}
 				}
+				if status == 301 {
+					// every redirection code, through Redirect and through Back
+					for code := 300; code <= 308; code++ {
+						code := code
+						w, _, pv := c19Serve("", func(ctx *rux.Context) { ctx.Redirect("/to", code) })
+						check(fmt.Sprintf("Redirect(\"/to\", %d)", code), w, pv, code, "*", nil)
+						w, _, pv = c19Serve("", func(ctx *rux.Context) { ctx.Back(code) })
+						check(fmt.Sprintf("Back(%d)", code), w, pv, code, "*", nil)
+					}
+				}
 				w, _, pv := c19Serve("", func(ctx *rux.Context) { ctx.Redirect("/dflt") })
 				check("Redirect(\"/dflt\") default code", w, pv, 301, "*", nil)
 				w, _, pv = c19Serve("", func(ctx *rux.Context) { ctx.Back() })
